@@ -139,8 +139,20 @@ pub struct StreamPlan {
     pub delay: usize,
     /// start only after stream `after` was released by both applications and the system went quiescent
     pub after: Option<usize>,
+    /// arbitrary host bytes instead of the tagged host (C07); such streams are matched to
+    /// accepted streams by (host, port) equality
+    #[serde(default)]
+    pub raw_host: Option<Vec<u8>>,
     /// sides[0] = the opener's application, sides[1] = the acceptor's
     pub sides: [SidePlan; 2],
+}
+impl StreamPlan {
+    pub fn host(&self, tag: usize) -> Vec<u8> {
+        match &self.raw_host {
+            Some(h) => h.clone(),
+            None => host_for(tag, self.pad),
+        }
+    }
 }
 #[derive(Serialize, Deserialize, Clone, Debug)]
 pub struct DgItem {
@@ -496,7 +508,11 @@ pub async fn writer_actor(cx: Rc<SideCtx>, ops: Vec<WOp>) {
                     w.push(WriteRec { inv, ret: None, n, res: None, vectored: false, off });
                     w.len() - 1
                 };
-                let Some(res) = cx.with(|s, c| s.poll_write(c, &data)).await else { break 'ops };
+                let Some(res) = cx.with(|s, c| s.poll_write(c, &data)).await else {
+                    // the stream object went away under the call: the call never completed (cancelled)
+                    cx.led.borrow_mut().streams[tag].sides[side].writes.truncate(idx);
+                    break 'ops;
+                };
                 finish_write(&cx, idx, n, res);
             }
             WOp::WriteV(parts) => {
@@ -516,7 +532,10 @@ pub async fn writer_actor(cx: Rc<SideCtx>, ops: Vec<WOp>) {
                     slices.push(IoSlice::new(&data[o..o + p]));
                     o += p;
                 }
-                let Some(res) = cx.with(|s, c| s.poll_write_vectored(c, &slices)).await else { break 'ops };
+                let Some(res) = cx.with(|s, c| s.poll_write_vectored(c, &slices)).await else {
+                    cx.led.borrow_mut().streams[tag].sides[side].writes.truncate(idx);
+                    break 'ops;
+                };
                 finish_write(&cx, idx, n, res);
             }
             WOp::Flush => {
@@ -847,8 +866,10 @@ async fn run_async(plan: Plan, sched: Sched, record: bool) -> DuoRun {
                     None => break,
                     Some(Ok(s)) => {
                         let now = seq2.tick();
-                        let tag = tag_of_host(&s.dest_host);
-                        let ok = tag.is_some_and(|t| t < plan2.streams.len() && plan2.streams[t].opener == 1 - me && s.dest_host[..] == host_for(t, plan2.streams[t].pad)[..] && s.dest_port == plan2.streams[t].port && led2.borrow().streams[t].sides[1].got_stream.is_none());
+                        // match the accepted stream to a request of the peer that has not been matched yet:
+                        // exactly the requested host bytes and port
+                        let tag = plan2.streams.iter().enumerate().position(|(t, st)| st.opener.min(1) == 1 - me && s.dest_host[..] == st.host(t)[..] && s.dest_port == st.port && led2.borrow().streams[t].open_inv.is_some() && led2.borrow().streams[t].sides[1].got_stream.is_none());
+                        let ok = tag.is_some();
                         if !ok {
                             let mut l = led2.borrow_mut();
                             l.ghosts.push((me, s.dest_host.to_vec(), s.dest_port));
@@ -909,7 +930,7 @@ async fn run_async(plan: Plan, sched: Sched, record: bool) -> DuoRun {
             sim_yields(st2.delay).await;
             let inv = seq2.tick();
             led2.borrow_mut().streams[tag].open_inv = Some(inv);
-            let host = host_for(tag, st2.pad);
+            let host = st2.host(tag);
             let r = cancel.run(m.new_stream_channel(&host, st2.port)).await;
             drop(m);
             let now = seq2.tick();
